@@ -226,13 +226,33 @@ type Decoder struct {
 }
 
 // DecoderOptions configure advanced behavior of the Decoder.
-type DecoderOptions struct{}
+type DecoderOptions struct {
+	// nesting depth of the item being decoded; travels with the options into
+	// stream unmarshalers
+	depth int
+}
+
+// MaxDecodeDepth limits the nesting depth of decoded items.
+const MaxDecodeDepth = 64
+
+func (d *Decoder) enter() error {
+	if d.depth >= MaxDecodeDepth {
+		return fmt.Errorf("nesting exceeds max depth: %d", MaxDecodeDepth)
+	}
+	d.depth++
+	return nil
+}
 
 // NewDecoder returns a new Decoder. The [io.Reader] is not copied.
 func NewDecoder(r io.Reader) *Decoder { return &Decoder{r: r} }
 
 // Decode a single CBOR item from the internal [io.Reader].
 func (d *Decoder) Decode(v any) error {
+	if err := d.enter(); err != nil {
+		return err
+	}
+	defer func() { d.depth-- }()
+
 	// Opportunistically use StreamUnmarshaler or Unmarshaler implementation
 	for rv := reflect.ValueOf(v); (rv.Kind() == reflect.Pointer || rv.Kind() == reflect.Interface) && !rv.IsNil(); rv = rv.Elem() {
 		// Use StreamUnmarshaler implementation unless it comes from a
@@ -275,6 +295,11 @@ func (d *Decoder) Decode(v any) error {
 
 // Decode one item to bytes
 func (d *Decoder) decodeRaw() ([]byte, error) {
+	if err := d.enter(); err != nil {
+		return nil, err
+	}
+	defer func() { d.depth-- }()
+
 	highThreeBits, lowFiveBits, additional, err := d.typeInfo()
 	if err != nil {
 		return nil, err
